@@ -14,7 +14,7 @@
    state; [final init ops] is its last state, [None] after a use of a destroyed object ([Fault]).
    All theorems quantify over ALL histories [ops] (induction over the list, no bound). *)
 From MptV Require Import Base.Mem C15.RefcountModel C15.RefcountSpec C15.RefcountCounter C15.RefcountInv
-  C15.RefcountSteps C15.RefcountOps C15.RefcountRun C15.RefcountAssign.
+  C15.RefcountSteps C15.RefcountOps C15.RefcountRun C15.RefcountAssign C15.RefcountAbs.
 Local Open Scope N_scope.
 
 (* ---- the counter ---- *)
@@ -75,6 +75,20 @@ Theorem C15_unreachable_only_if_forced :
   forall o x, nth_error (objs s) o = Some x -> odead x = false -> is_static (okind x) = false ->
     held s o = 0 -> 0 < oext x.
 Proof. exact unreachable_is_forced_l. Qed.
+
+(* the specification (C15/RefcountSpec.v) keeps no counter: it DERIVES "alive" and the count an object
+   must show from the handles alone ([salive], [stotal]).  Applied to the handles of any state a
+   history reaches ([abs] forgets counters, destruction flags, locals and the call log) it yields
+   exactly what the model reads from its counter fields and destruction flags, and the same
+   "unreachable but alive" verdict *)
+Theorem C15_spec_observation_agrees :
+  forall ops s, final init ops = Some s ->
+  forall t, sobserve (abs s) t = match observe s t with Obs o d h _ => Obs o d h [] | ObsFault => ObsFault end.
+Proof. exact history_observation_l. Qed.
+
+Theorem C15_spec_leak_agrees :
+  forall ops s, final init ops = Some s -> sleaked (abs s) = leaked s.
+Proof. exact history_leak_l. Qed.
 
 (* the invariant is inductive: from ANY state that satisfies it (not only reachable ones) every
    operation succeeds without fault and re-establishes it with no handle left in a local *)
@@ -165,6 +179,8 @@ Print Assumptions C15_unique_has_one_handle.
 Print Assumptions C15_history_never_faults.
 Print Assumptions C15_destroy_exactly_at_zero.
 Print Assumptions C15_unreachable_only_if_forced.
+Print Assumptions C15_spec_observation_agrees.
+Print Assumptions C15_spec_leak_agrees.
 Print Assumptions C15_step_preserves_invariant.
 Print Assumptions C15_assign_releases_old_once_retains_new_once.
 Print Assumptions C15_assign_refused_unchanged.
